@@ -11,7 +11,7 @@ import itertools
 
 from ..core import AnchorError, call_name, norm, short, own_nodes, kwarg, FUNC_TYPES
 from ..cfg import cfg_of
-from ..lib import calls_in, stmts_in, gate, must_pass, node_has, params, dominating_facts, xnorm, atom_key, decide, selection_of
+from ..lib import calls_in, stmts_in, gate, must_pass, node_has, params, dominating_facts, xnorm, atom_key, decide, selection_of, key_function, fact_accept, emission_points
 from ..summaries import check_summary
 
 CTX = 'jedi.inference.context'
@@ -156,13 +156,19 @@ def rule_d(repo, chk):
     chk.ob('C03.d', ok, r, 'the name of a def/class belongs to the scope AROUND the definition')
     cf = repo.find(FIL, 'ParserTreeFilter._check_flows')
     srt = [x for x in calls_in(cf, 'sorted')]
-    ok = len(srt) == 1 and isinstance(kwarg(srt[0], 'reverse'), ast.Constant) and kwarg(srt[0], 'reverse').value is True and 'start_pos' in norm(kwarg(srt[0], 'key'))
+    kf = key_function(repo, cf, kwarg(srt[0], 'key')) if len(srt) == 1 and kwarg(srt[0], 'key') is not None else None
+    ok = len(srt) == 1 and isinstance(kwarg(srt[0], 'reverse'), ast.Constant) and kwarg(srt[0], 'reverse').value is True and \
+        kf is not None and kf[0] == ['%s.start_pos' % kf[1]]
     chk.ob('C03.d', ok, cf, '_check_flows visits candidates latest-first')
+    # the status of a candidate is what reachability_check answered for it; the facts below are about that value, whatever it is called
+    st = [a.targets[0].id for a in stmts_in(cf, ast.Assign) if len(a.targets) == 1 and isinstance(a.targets[0], ast.Name)
+          and call_name(a.value) == 'reachability_check']
+    sv = st[0] if len(st) == 1 else 'check'
     brk = [x for x in ast.walk(cf) if isinstance(x, ast.Break)]
-    ok = len(brk) == 1 and gate(cf, brk[0], lambda e, pol: pol and norm(e) == 'check is flow_analysis.REACHABLE') is None
+    ok = len(brk) == 1 and gate(cf, brk[0], fact_accept(cf, '%s is flow_analysis.REACHABLE' % sv)) is None
     chk.ob('C03.d', ok, cf, 'and stops at the first definitely reachable one (earlier bindings are shadowed)')
-    ys = [y for y in own_nodes(cf) if isinstance(y, ast.Yield)]
-    ok = len(ys) == 1 and gate(cf, ys[0], lambda e, pol: pol and norm(e) == 'check is not flow_analysis.UNREACHABLE') is None
+    em = emission_points(cf)
+    ok = len(em) == 1 and gate(cf, em[0][0], fact_accept(cf, '%s is not flow_analysis.UNREACHABLE' % sv)) is None
     chk.ob('C03.d', ok, cf, 'unreachable bindings are not offered')
 
 
